@@ -340,6 +340,11 @@ static json observe_all(State& st, const json& a)
     d["uuid"] = guarded([&] { return json(db.uuid()); });
     d["version_name"] = guarded([&] { return json(db.version_name()); });
     d["directory"] = guarded([&] { return json(db.directory()); });
+    if (a.value("verify", false))
+        d["verify"] = guarded([&] {
+            db.verify();
+            return json(true);
+        });
     std::set<int64_t> cids, tids;
     std::vector<dj::crate> live_crates;
     std::vector<dj::track> live_tracks;
